@@ -14,8 +14,6 @@ import (
 	"verif/internal/h"
 
 	"github.com/relab/gorums"
-	"google.golang.org/grpc"
-	"google.golang.org/grpc/credentials/insecure"
 )
 
 // sleepHook is the sync-free hook of race runs: per-thread randomness, sleeps only, no shared writes.
@@ -274,7 +272,7 @@ func RunRaces(e *Env) {
 	}
 	// directed: managers created and used with a plain gorums API (RawManager) concurrently
 	for i := 0; i < e.Pick(5, 30); i++ {
-		mgr := gorums.NewRawManager(gorums.WithNoConnect(), gorums.WithGrpcDialOptions(grpc.WithTransportCredentials(insecure.NewCredentials())))
+		mgr := gorums.NewRawManager(gorums.WithNoConnect(), gorums.WithGrpcDialOptions(h.DialOpts()...))
 		var wg sync.WaitGroup
 		for w := 0; w < 6; w++ {
 			wg.Add(1)
